@@ -163,7 +163,7 @@ class Generator:
 REVIEWED = {}
 
 
-def check(g, rule):
+def check(g, rule, thorough=False):
     gen = Generator(g)
     bt = Backtrack(g)
     n_sent = 0
@@ -183,5 +183,31 @@ def check(g, rule):
                       "opening-hours-syntax/src/grammar.pest:%s (rule %s)" % (g.rules[name]["line"], name), {"sentences": shadowed[:10]})
         else:
             rule.ok({"rule": name, "sentences_checked": len(sentences)})
-    rule.r["instances"] = rule.r["instances"][:30] + [{"rules": n_rules, "sentences_checked_in_total": n_sent}]
+    # adjacent selectors: a date / month / year selector followed by a time span, with every separator - where an
+    # hour can be taken for a day number or a year. Sentences of `wide_range_selectors` x separators x `timespan`,
+    # read from `selector_sequence`.
+    global CAP
+    wide = sorted({w.rstrip(" :") for w in gen.rule("wide_range_selectors")}, key=lambda x: (len(x), x))
+    old_cap, CAP = CAP, (800 if thorough else 200)
+    try:
+        spans = Generator(g).rule("timespan")
+    finally:
+        CAP = old_cap
+    shadowed = []
+    n_adj = 0
+    for w in wide:
+        for sep in ("", " ", ":", ": "):
+            for t in spans:
+                txt = w + sep + t
+                n_adj += 1
+                if g.full_match("selector_sequence", txt):
+                    continue
+                if bt.accepts("selector_sequence", txt) and ("selector_sequence", txt) not in REVIEWED:
+                    shadowed.append(txt)
+    if shadowed:
+        rule.fail("C05.R5:selector_sequence:adjacent", "a date selector followed by a time span: sentence(s) %s are produced by the grammar's alternatives but rejected by pest's ordered reading (the first digits of the time are captured as a day number or year)" % shadowed[:4],
+                  "opening-hours-syntax/src/grammar.pest:%s (rule selector_sequence)" % g.rules["selector_sequence"]["line"], {"sentences": shadowed[:10], "count": len(shadowed)})
+    else:
+        rule.ok({"rule": "selector_sequence", "adjacent_selector_sentences_checked": n_adj, "wide_prefixes": len(wide), "time_spans": len(spans)})
+    rule.r["instances"] = rule.r["instances"][:30] + [{"rules": n_rules, "sentences_checked_in_total": n_sent + n_adj}]
     rule.floor(80)
